@@ -21,7 +21,6 @@ CHECKS = {
         "to length 6 (quick) / 10 (thorough), every pos, lexeme lengths 0-2. Outside: more than one foreign "
         "character per label, documents longer than the bound in (c).",
    ref='5 (C15)', technique='symbolic execution (symx) of pvl.grammar/lexer/exceptions with z3 deciding every branch; bounded'),
-}
  'C17': dict(
    text="Bounded symbolic execution of the real decoder cascade, Token predicates and encoder quoting code on ONE "
         "fully symbolic token text per (grammar, decoder) pair: every string of length 0-3 (quick) / 0-4 (thorough) "
@@ -34,6 +33,7 @@ CHECKS = {
         "the identical str and otherwise a quoted form that decodes to s (modulo ODL white-space folding) or raises "
         "ValueError. Outside: longer free strings, dateutil (absent).",
    ref='5 (C17)', technique='symbolic execution (symx) of pvl.decoder/token/encoder with z3 deciding every branch; bounded string length'),
+}
 NA_REASON = "check not built yet (construction in progress, see DESIGN.md section 8)"
 
 checks = []
